@@ -85,7 +85,11 @@ ArgsLoop:
 		var encodedArg string
 		if trackFilenameFlag {
 			encodedArg = escapeGlobCharacters(pattern)
-			pattern = escapeGlobCharacters(pattern)
+			// Compare and merge on the same, unescaped form that the
+			// lines of .gitattributes are reduced to below; otherwise a
+			// name with a space or '#' never matches its own line and is
+			// appended again on every run.
+			pattern = unescapeAttrPattern(encodedArg)
 		} else {
 			encodedArg = escapeAttrPattern(pattern)
 		}
